@@ -1,12 +1,14 @@
 import OsacaVerif.Driver.Proto
 import OsacaVerif.Driver.C12
 import OsacaVerif.Driver.C16
+import OsacaVerif.Driver.C19
 open OsacaVerif OsacaVerif.Proto
 
 /-- one handler per property module; the first that recognises the op answers -/
 def handlers : List (Req → Option String) := [
   Driver.C12.handle,
-  Driver.C16.handle
+  Driver.C16.handle,
+  Driver.C19.handle
 ]
 
 def dispatch (r : Req) : String :=
